@@ -8,8 +8,8 @@
 (*    the value 0d7h to My_Carry on an 8051" (pseudo-instructions, BIT), SFR / SFRB define the register symbol.  So a    *)
 (*    statement whose bit operand is written byte.b IS the statement with the bit address BitAddrOf(byte, b); if there   *)
 (*    is no such bit (byte not bit addressable, b > 7) the operand has no encoding: error, nothing emitted.              *)
-(*    Spellings (sp) of the operand:  "num" 208.7   "sfr"  XS sfr 208 / XS.7   "sfrb"  XS sfrb 208 / XS.7                *)
-(*                                    "bit"  XB bit 208.7 / XB   (the definition line stands directly in front)           *)
+(*    Spellings (sp) of the operand:  "num" 208.7   "sfr"  X sfr 208 / X.7   "sfrb"  X sfrb 208 / X.7                    *)
+(*                                    "bit"  X bit 208.7 / X   (the definition line stands in front of the context)      *)
 (*    NamedDeviation: bytes 30H..3FH - the assembler manual (SFR and SFRB) calls 20h...3fh bit addressable, the          *)
 (*    hardware description 20H..2FH only.  Such a statement is generated with verdict "reject" (instruction set) and      *)
 (*    marked zone = "ram30": the harness reports what the assembler does with it under its own finding key.              *)
@@ -67,15 +67,17 @@ BitZone(y, b) == IF y \in 48..63 /\ b \in 0..7 THEN "ram30"
                  ELSE IF y \in 0..255 /\ b \in 0..7 /\ ~BitAddressable(y) THEN "nobit" ELSE ""
 \* the operand text and the definition line in front of the statement
 ByteBit(y, b) == ToString(y) \o "." \o ToString(b)
-BitText(sp, y, b) == IF Spellings[sp] = "num" THEN ByteBit(y, b)
-                     ELSE IF Spellings[sp] = "bit" THEN "XB" ELSE "XS." \o ToString(b)
-BitPre(sp, y, b) == IF Spellings[sp] = "num" THEN <<>>
-                    ELSE IF Spellings[sp] = "bit" THEN << <<"XB", "bit", ByteBit(y, b)>> >>
-                    ELSE << <<"XS", Spellings[sp], ToString(y)>> >>
+\* (symbol names are made unique from the case's coordinates, so that cases can share a source file)
+SymName(f, sp, y, b) == "X" \o ToString(f.enc[1].c) \o "Y" \o ToString(y) \o "B" \o ToString(b) \o "S" \o ToString(sp)
+BitText(f, sp, y, b) == IF Spellings[sp] = "num" THEN ByteBit(y, b)
+                        ELSE IF Spellings[sp] = "bit" THEN SymName(f, sp, y, b) ELSE SymName(f, sp, y, b) \o "." \o ToString(b)
+BitPre(f, sp, y, b) == IF Spellings[sp] = "num" THEN <<>>
+                       ELSE IF Spellings[sp] = "bit" THEN << <<SymName(f, sp, y, b), "bit", ByteBit(y, b)>> >>
+                       ELSE << <<SymName(f, sp, y, b), Spellings[sp], ToString(y)>> >>
 \* argument texts: the table's rendering with the bit operand replaced
 BitArgs(f, sp, y, b) ==
   LET o == BitOps(f, 0) IN
-    [i \in 1..Len(f.args) |-> IF f.args[i].f = 1 THEN f.args[i].pre \o BitText(sp, y, b) \o f.args[i].post
+    [i \in 1..Len(f.args) |-> IF f.args[i].f = 1 THEN f.args[i].pre \o BitText(f, sp, y, b) \o f.args[i].post
                               ELSE RenderArgs(f, o)[i]]
 
 \* ------------------------------------------------------------------------------------------------ 2. JMP / CALL
@@ -125,7 +127,7 @@ BitOut(c) ==
     [id |-> c.f.id \o " [" \o Spellings[c.sp] \o "]", mn |-> c.f.mn, args |-> BitArgs(c.f, c.sp, c.y, c.b),
      pc |-> CasePc(c), org |-> OrgOf(c), exp |-> IF a = -1 THEN "reject" ELSE "units",
      units |-> IF a = -1 THEN <<>> ELSE EncodeRaw(c.f, BitOps(c.f, a), BitPC), alt |-> <<>>,
-     ops |-> <<c.y, c.b>>, len |-> Len(c.f.enc), pre |-> BitPre(c.sp, c.y, c.b), zone |-> BitZone(c.y, c.b),
+     ops |-> <<c.y, c.b>>, len |-> Len(c.f.enc), pre |-> BitPre(c.f, c.sp, c.y, c.b), zone |-> BitZone(c.y, c.b),
      sp |-> Spellings[c.sp], ctx |-> CtxOf(c)]
 JmpOut(c) ==
   LET adm == Admissible(c.mn, c.t, c.p)  ch == Choose(c.mn, c.t, c.p) IN
